@@ -8,6 +8,14 @@ def c17_jobs(tier):
     sl = 2 if tier == "quick" else 4
     for a in range(7):
         jobs.append({"pkgdir": "alphabet", "func": "VerifC17_Builtin", "params": {"alphabet": a, "slice": sl}})
+    for cased in (0, 1):
+        ns = (1, 2, 3) if cased else (1, 2)
+        if tier == "thorough":
+            ns = (1, 2, 3, 4) if cased else (1, 2, 3)
+        for n in ns:
+            jobs.append({"pkgdir": "alphabet", "func": "VerifC17_Constructed", "params": {"n": n, "cased": cased}, "timeout_s": 900 if tier == "quick" else 3000})
+    for n in ((1, 2) if tier == "quick" else (1, 2, 3)):
+        jobs.append({"pkgdir": "alphabet", "func": "VerifC17_Pairing", "params": {"n": n}})
     return jobs
 
 
@@ -16,7 +24,7 @@ CHECKS["C17"] = {
     "functions": ["alphabet.newAlphabet", "alphabet.NewPairing", "alphabet.NewComplementor", "(*alpha).IsValid/IndexOf/Letter/AllValid/LetterIndex/ValidLetters/Letters",
                   "(*Pairing).Complement/ComplementTable", "strings.ToLower/ToUpper/IndexFunc (executed, not modelled)"],
     "explanation": "bounded symbolic execution of the real alphabet code; the letter is one symbolic byte covering all 256 values in a single query per law",
-    "outside": "definition strings longer than the stated length; non-ASCII definitions beyond the concrete samples",
+    "outside": "definition strings longer than 4 letters, pairing strings longer than 3; non-ASCII definitions beyond the concrete samples; NewComplementor on constructed alphabets",
 }
 
 
@@ -210,6 +218,9 @@ def c06_jobs(tier):
     for qual in (0, 1):
         for (n, k) in ([(2, 2)] if tier == "quick" else [(2, 2), (3, 2), (4, 2), (2, 3)]):
             jobs.append({"pkgdir": P, "func": "VerifC06_Stitch", "params": {"n": n, "k": k, "qual": qual}})
+            if tier == "quick" and qual == 0:
+                # three features: nested-then-overlapping layouts need a third interval
+                jobs.append({"pkgdir": P, "func": "VerifC06_Stitch", "params": {"n": n, "k": 3, "qual": 0}})
             if tier == "thorough" or qual == 0:
                 jobs.append({"pkgdir": P, "func": "VerifC06_Compose", "params": {"n": n, "k": k, "qual": qual}})
     return jobs
@@ -265,6 +276,11 @@ def c13_jobs(tier):
         jobs.append(_mor("VerifC11_History", c, ns, faults=1))
     for (c, n) in ([(2, 1), (2, 3)] if tier == "quick" else [(2, 1), (2, 3), (1, 2), (3, 7)]):
         jobs.append(_mor("VerifC13_AutoClean", c, [n]))
+    # concurrent mode: one fault x every interleaving within the pre-emption bound
+    for (c, n, pre) in ([(1, 2, 1), (2, 3, 1), (1, 3, 2)] if tier == "quick" else [(1, 2, 3), (1, 3, 2), (2, 3, 2), (2, 5, 1)]):
+        j = _mor("VerifC13_ConcurrentFault", c, [n], faults=1)
+        j.update({"sched": "sym", "preempt": pre, "timeout_s": 900 if tier == "quick" else 3000})
+        jobs.append(j)
     return jobs
 
 
@@ -274,7 +290,7 @@ CHECKS["C13"] = {
     "functions": ["morass (as C11)", "engine temp-file/gob model with one symbolic fault per path"],
     "assumptions": ["a failing operation returns an error and has no effect; at most one fault per history; the position of the fault is a solver variable (fault_k for every model operation k)"],
     "explanation": "C11 histories with the fault schedule switched on: if a fault fired, some later Push/Finalise/Pull/Clear returned a non-nil non-EOF error, or the values delivered are exactly the pushed multiset; residue: directory gone after CleanUp and after an AutoClean drain, no run files after an AutoClear drain",
-    "outside": "concurrent mode with faults, more than one fault, faults in TempDir beyond New's own error return",
+    "outside": "more than one fault, more pre-emptions than stated in concurrent mode, faults in TempDir beyond New's own error return; schedule-dependent counterexamples are reported with the engine's schedule, not replayed natively",
 }
 
 
@@ -360,7 +376,7 @@ def c03_jobs(tier):
         jobs.append({"pkgdir": "io/featio/bed", "func": "VerifC03_BedStructured", "params": {"bedtype": bt}, "timeout_s": 900 if tier == "quick" else 3000})
     for n in ((2, 3) if tier == "quick" else (1, 2, 3, 4, 5)):
         jobs.append({"pkgdir": "io/featio/gff", "func": "VerifC03_Gff", "params": {"n": n}, "timeout_s": 600 if tier == "quick" else 3000})
-    for meta in (0, 1):
+    for meta in (0, 1, 2):
         jobs.append({"pkgdir": "io/featio/gff", "func": "VerifC03_GffStructured", "params": {"meta": meta}, "timeout_s": 900 if tier == "quick" else 3000})
     jobs.append({"pkgdir": "io/seqio/fasta", "func": "VerifC03_Fasta", "params": {"n": 3, "nonascii": 1}})
     jobs.append({"pkgdir": "io/seqio/fastq", "func": "VerifC03_Fastq", "params": {"n": 3, "nonascii": 1}})
